@@ -15,7 +15,7 @@ from pyvc.sval import SBytes, MRef, SOpt, SStr, Opaque, fresh, iv, BYTES, BYTEAR
 from pyvc import sval
 from pyvc.externals import xor8
 from spec import rfc6455
-from contracts.world import world, sock_is_none, wire_since, wire_has_close, I12, install_flag_monitor
+from contracts.world import world, sock_is_none, wire_since, wire_has_close, I12, install_flag_monitor, rely_other_threads
 from contracts.frame import build_post
 
 REG.transparent(
@@ -578,6 +578,19 @@ class SendCloseInternal(_CloseBase):
     def result(self, ip, a, old):
         st = ip.st
         W = st.ghost['W']
+        if st.ghost.get('mt'):
+            # concurrent reading (C12): the Close goes through session.write, i.e. through the session lock; what
+            # write sees under the lock is the state AFTER the other threads' steps (write's verified contract)
+            rely_other_threads(ip, W, old)
+            seen = st.snapshot()
+            refused = Or(sock_is_none(seen.get(W.session, '_sock')), seen.get(W.state, 'closed'), seen.get(W.state, 'closing'))
+            if st.decide(fresh('close_sent', B), 'close-sent'):
+                st.assume(Not(refused))
+                st.ghost.setdefault('wire_log', []).append(mk(ip, T.Bytes(BYTES), 'wire_close'))
+                st.ghost['wc'] = BoolVal(True)
+                st.heap[W.state.oid].f['closing'] = BoolVal(True)      # set by write inside the critical section
+                return True
+            return False
         ok = fresh('close_sent', BoolVal(True).sort())
         if st.decide(ok, 'close-sent'):
             w = mk(ip, T.Bytes(BYTES), 'wire_close')
@@ -594,6 +607,8 @@ class SendCloseInternal(_CloseBase):
         rb = close_payload(ip, a.code, a.reason)
         sn = sock_is_none(old.get(W.session, '_sock'))
         refused = Or(sn, old.get(W.state, 'closed'), old.get(W.state, 'closing'))
+        if st.ghost.get('mt') and ip.reading == 'call':
+            return [('one-frame-iff-sent', BoolVal(len(w) == (1 if res is True else 0)))]
         if res is True:
             out = [('exactly-one-frame-written', BoolVal(len(w) == 1)), ('only-when-open', Not(refused)),
                    ('closing-once-the-Close-frame-is-on-the-wire', st.get(W.state, 'closing'), ('C12',))]
@@ -611,9 +626,16 @@ class Close(_CloseBase):
     """from C08/C03: open -> exactly one Close frame (code, reason) - or nothing if the transport
     refused it - then closing is set and sent_close_time recorded; already closing/closed -> nothing
     written, nothing changed; oversize reason -> ValueError, nothing written, state unchanged"""
+    def variants(self):
+        # 'mt': the concurrent reading (C12) - other threads run wherever this one may wait for the session lock
+        return _CloseBase.variants(self) + ['mt-bytes']
+
     def setup(self, ip, v):
         W = world(ip, session='some')
         install_flag_monitor(ip, W)
+        if v.startswith('mt-'):
+            ip.st.ghost['mt'] = True
+            v = v[3:]
         return dict(self=W.ws, **self.close_args(ip, v))
 
     def modifies(self, ip, a):
@@ -652,6 +674,9 @@ class Close(_CloseBase):
         w = wire_since(ip, old)
         rb = close_payload(ip, a.code, a.reason)
         was_open = self.was_open(ip, old)
+        if st.ghost.get('mt'):
+            return [('at-most-one-frame-written', BoolVal(len(w) <= 1), ('C12',)),
+                    ('C12:monitor@exit(Close on the wire => closing or closed)', I12(st, W), ('C12',))]
         out = [('at-most-one-frame-written', BoolVal(len(w) <= 1), ('C03', 'C08', 'C12')),
                ('nothing-written-unless-open', Implies(Not(was_open), BoolVal(len(w) == 0)), ('C08', 'C12')),
                ('closing-set-when-it-was-open', Implies(was_open, st.get(W.state, 'closing')), ('C08',)),
